@@ -262,7 +262,7 @@ def product(**ranges):
 #   value(k,t) = v_k + t + z + g + [p1_k>=0] c_{p1_k}(t) + 3*[p2_k>=0] c_{p2_k}(t) + [T_k and t>0] c_k(t-1)
 # =====================================================================================================
 
-CALL_SHAPES = 6     # how a callee is invoked inside the formula text
+CALL_SHAPES = 6     # how a callee is invoked inside the formula text (shapes 6, 7: C17 only - clean-up code around the call)
 
 
 def _callexpr(shape, cands, p, arg):
@@ -282,7 +282,7 @@ def _callexpr(shape, cands, p, arg):
     raise ValueError(shape)
 
 
-def dag_formula(k, shape=0, default=False, fail=None, uncached_read=False, reads_z=True):
+def dag_formula(k, shape=0, default=False, fail=None, uncached_read=False, reads_z=True, reads_zz=False):
     """Source text of cells ck.  shape: call spelling; default: `def ck(t=0)`;
     fail: None | 'raise' | 'zerodiv' | 'none' (failure at (F, FT) read from refs)."""
     cands = ["c%d" % j for j in range(k)]
@@ -292,14 +292,24 @@ def dag_formula(k, shape=0, default=False, fail=None, uncached_read=False, reads
         lines.append("        raise ValueError('boom')")
     elif fail == "zerodiv":
         lines.append("    hit(-1, 1 // (0 if (F == %d and FT == t) else 1))" % k)
-    lines.append("    r = v%d + t + %s + g" % (k, "Sub.z" if reads_z else "0"))
+    lines.append("    r = v%d + t + %s + g%s" % (k, "Sub.z" if reads_z else "0", " + Sub.zz" if reads_zz else ""))
+    wrap = shape in (6, 7)
+    cshape = 0 if wrap else shape
+
+    def guarded(stmt):
+        """The calling statement, optionally inside try/finally (6) or try/except <non-matching> (7)."""
+        if shape == 6:
+            return ["        try:", "            " + stmt, "        finally:", "            hit(-2, t)", "            hit(-3, t)"]
+        if shape == 7:
+            return ["        try:", "            " + stmt, "        except KeyError:", "            hit(-2, t)", "            r = 0"]
+        return ["        " + stmt]
     if k > 0:
         lines.append("    if p1_%d >= 0:" % k)
-        lines.append("        r = r + %s" % _callexpr(shape, cands, "p1_%d" % k, "t"))
+        lines += guarded("r = r + %s" % _callexpr(cshape, cands, "p1_%d" % k, "t"))
         lines.append("    if p2_%d >= 0:" % k)
-        lines.append("        r = r + 3 * %s" % _callexpr(shape, cands, "p2_%d" % k, "t"))
+        lines += guarded("r = r + 3 * %s" % _callexpr(cshape, cands, "p2_%d" % k, "t"))
     lines.append("    if T%d and t > 0:" % k)
-    lines.append("        r = r + %s" % _callexpr(shape if shape != 5 else 0, ["c%d" % k], "0", "t - 1"))
+    lines += guarded("r = r + %s" % _callexpr(cshape if cshape != 5 else 0, ["c%d" % k], "0", "t - 1"))
     if fail == "none":
         lines.append("    if F == %d and FT == t:" % k)
         lines.append("        return None")
@@ -310,8 +320,10 @@ def dag_formula(k, shape=0, default=False, fail=None, uncached_read=False, reads
 class Dag:
     """Concrete construction (under NoTracing) + symbolic parameterisation + independent oracle."""
 
-    def __init__(self, n, shapes=None, defaults=None, fail=None, cached=None, tag="D", zreaders=None):
+    def __init__(self, n, shapes=None, defaults=None, fail=None, cached=None, tag="D", zreaders=None, zzreaders=None):
         self.zreaders = list(zreaders) if zreaders is not None else [True] * n      # which cells read Sub.z (attribute path)
+        self.zzreaders = list(zzreaders) if zzreaders is not None else [False] * n  # which cells read a second reference Sub.zz
+        self.zz = 0
         self.n = n
         self._rp = {}
         self.inputs = {}
@@ -324,6 +336,7 @@ class Dag:
             m.g = 0
             m.hit = hit
             self.Sub.z = 0
+            self.Sub.zz = 0
             S = self.S
             if fail:
                 S.F = -1
@@ -337,7 +350,7 @@ class Dag:
             self.cells = []
             self.sources = []
             for k in range(n):
-                src = dag_formula(k, shape=(shapes[k] if shapes else 0), default=bool(defaults and defaults[k]), fail=fail, reads_z=self.zreaders[k])
+                src = dag_formula(k, shape=(shapes[k] if shapes else 0), default=bool(defaults and defaults[k]), fail=fail, reads_z=self.zreaders[k], reads_zz=self.zzreaders[k])
                 self.sources.append(src)
                 c = S.new_cells("c%d" % k, formula=src)
                 if cached is not None and not cached[k]:
@@ -379,7 +392,7 @@ class Dag:
         if (k, t) in self.inputs:
             return self.inputs[(k, t)]
         p1, p2, T = self.rp(k)
-        r = self.V[k] + t + (self.z if self.zreaders[k] else 0) + self.g
+        r = self.V[k] + t + (self.z if self.zreaders[k] else 0) + self.g + (self.zz if self.zzreaders[k] else 0)
         if p1 >= 0:
             r = r + self.val(p1, t)
         if p2 >= 0:
